@@ -1,6 +1,6 @@
-(* C12 - blacklists are respected; the snapshot codec round-trips into a fresh graph. *)
+(* C12 - blacklists are respected; load_snapshot is total; addresses in the heap stay packable. *)
 From Coq Require Import ZArith List Bool Lia Arith.
-From IPV8V Require Import lib.PyErr lib.Bytes lib.BE model.M12_network spec.S12_graph
+From IPV8V Require Import lib.PyErr lib.Bytes lib.BE model.M02_wire model.M12_network spec.S12_graph
   proofs.P12_base proofs.P12_inv proofs.P12_queries.
 Import ListNotations.
 Open Scope Z_scope.
@@ -31,7 +31,7 @@ Proof.
   - unfold get_verified_by_address. fold (ip_pick n a hint). destruct (ip_pick n a hint); reflexivity.
   - destruct s; reflexivity.
   - unfold get_introductions_from. destruct (d_get Z.eqb k (intro_cache n)); reflexivity.
-  - unfold load_snapshot. destruct (load_loop _ _ _ _) as [[? ?] ?]. reflexivity.
+  - unfold load_snapshot. destruct (load_loop _ _ _ _ _) as [[? ?] ?]. reflexivity.
 Qed.
 
 Lemma blp_run ops : forall n, blp (run n ops) = blp n.
@@ -53,126 +53,52 @@ Proof.
   - intros a Ha. apply mem_addr_false. exact (proj1 (existsb_false_iff _ _) B2 a Ha).
 Qed.
 
-(* ------------------------------------------------------------------ the address codec *)
-Lemma firstn_len_app {A} (l x : list A) n : length l = n -> firstn n (l ++ x) = l.
+(* ------------------------------------------------------------------ load_snapshot is total *)
+(* a successful unpack of an address record moves the offset forward *)
+Lemma unpack_address_advances d off a o : unpack_address d off = Ok (a, o) -> (off < o)%nat.
 Proof.
-  intros E. subst n. induction l as [|y l IH]; simpl; [destruct x; reflexivity|]. rewrite IH. reflexivity.
-Qed.
-
-Lemma skipn_len_app {A} (l x : list A) n : length l = n -> skipn n (l ++ x) = x.
-Proof. intros E. subst n. induction l as [|y l IH]; simpl; [reflexivity|]. exact IH. Qed.
-
-Lemma pack_addr_length a : length (pack_addr a) = match a with A4 _ _ => 7%nat | A6 _ _ => 19%nat end.
-Proof. destruct a; cbn [pack_addr length]; rewrite app_length, !be_encode_length; reflexivity. Qed.
-
-Lemma unpack_pack a rest : addr_ok a ->
-  unpack_addr (pack_addr a ++ rest) = Some (a, length (pack_addr a)).
-Proof.
-  intros Hok. rewrite pack_addr_length. destruct a as [ip port|ip port]; cbn [addr_ok] in Hok; destruct Hok as [Hi Hp].
-  - cbn [pack_addr app]. rewrite <- app_assoc. cbn [unpack_addr].
-    assert (L : (6 <=? length (be_encode 4 ip ++ be_encode 2 port ++ rest))%nat = true).
-    { apply Nat.leb_le. rewrite !app_length, !be_encode_length. lia. }
-    rewrite L. rewrite (firstn_len_app (be_encode 4 ip)) by apply be_encode_length.
-    rewrite (skipn_len_app (be_encode 4 ip)) by apply be_encode_length.
-    rewrite (firstn_len_app (be_encode 2 port)) by apply be_encode_length.
-    rewrite !be_decode_encode by (cbn; lia). reflexivity.
-  - cbn [pack_addr app]. rewrite <- app_assoc. cbn [unpack_addr].
-    assert (L : (18 <=? length (be_encode 16 ip ++ be_encode 2 port ++ rest))%nat = true).
-    { apply Nat.leb_le. rewrite !app_length, !be_encode_length. lia. }
-    rewrite L. rewrite (firstn_len_app (be_encode 16 ip)) by apply be_encode_length.
-    rewrite (skipn_len_app (be_encode 16 ip)) by apply be_encode_length.
-    rewrite (firstn_len_app (be_encode 2 port)) by apply be_encode_length.
-    rewrite !be_decode_encode by (cbn; lia). reflexivity.
-Qed.
-
-Lemma load_loop_step f d all c a used :
-  d <> [] -> unpack_addr d = Some (a, used) ->
-  load_loop (S f) d all c
-  = load_loop f (skipn used d) (d_set addr_eqb a (mkWalk None None false) all) (forget_intro a c).
-Proof. intros Hd Hu. destruct d as [|b d]; [contradiction|]. cbn [load_loop]. rewrite Hu. reflexivity. Qed.
-
-Definition loaded (l : list addr) (all : list (addr * walk)) : list (addr * walk) :=
-  fold_left (fun al a => d_set addr_eqb a (mkWalk None None false) al) l all.
-Definition forgotten (l : list addr) (c : list (key * list addr)) : list (key * list addr) :=
-  fold_left (fun c a => forget_intro a c) l c.
-
-Lemma load_concat l : forall fuel all c,
-  Forall addr_ok l -> (length l <= fuel)%nat ->
-  load_loop fuel (concat (map pack_addr l)) all c = (loaded l all, forgotten l c, false).
-Proof.
-  induction l as [|a l IH]; intros fuel all c Hok Hf.
-  - cbn. destruct fuel; reflexivity.
-  - inversion Hok; subst. destruct fuel as [|f]; [simpl in Hf; lia|].
-    cbn [map concat].
-    rewrite (load_loop_step f _ all c a (length (pack_addr a))).
-    + rewrite skipn_len_app by reflexivity. rewrite IH; [reflexivity|assumption|simpl in Hf; lia].
-    + destruct a; cbn [pack_addr app]; discriminate.
-    + apply unpack_pack. assumption.
-Qed.
-
-Lemma concat_pack_length l : (length l <= length (concat (map pack_addr l)))%nat.
-Proof.
-  induction l as [|a l IH]; simpl; [lia|]. rewrite app_length, pack_addr_length. destruct a; lia.
-Qed.
-
-Lemma keys_loaded l : forall all x, In x (map fst (loaded l all)) <-> In x l \/ In x (map fst all).
-Proof.
-  unfold loaded. induction l as [|a l IH]; intros all x; simpl.
-  - split; [auto|]. intros [[]|H]. assumption.
-  - rewrite IH. rewrite (keys_d_set addr_eqb aeq). split.
-    + intros [H|[H|H]]; auto.
-    + intros [[H|H]|H]; auto.
-Qed.
-
-(* the walkable addresses of a fresh Network after loading the snapshot made of `l` *)
-Definition reload (ipc intc svcc : Z) (bla : list addr) (blm : list key) (l : list addr) : list addr :=
-  snd (get_walkable_addresses
-         (load_snapshot (init_net ipc intc svcc bla blm) (concat (map pack_addr l))) None false).
-
-Lemma reload_exact ipc intc svcc bla blm l x :
-  Forall addr_ok l -> In x (reload ipc intc svcc bla blm l) <-> In x l.
-Proof.
-  intros Hok. unfold reload, load_snapshot. cbn [all_addrs intro_cache init_net].
-  rewrite (load_concat l _ [] [] Hok (concat_pack_length l)).
-  unfold get_walkable_addresses. cbn [snd verified set_all set_intro_cache init_net all_addrs].
-  unfold addrs_of. cbn [flat_map]. rewrite filter_In. cbn [mem_addr existsb negb].
-  rewrite keys_loaded. cbn [map In].
-  split; [intros [[H|[]] _]; assumption|intros H; split; [left; assumption|reflexivity]].
+  unfold unpack_address. cbn [unpack]. unfold addr_unpack, bind.
+  destruct (take 1 off d) as [t|]; [|discriminate].
+  destruct (be_decode t =? 1).
+  { destruct (take 6 (off + 1) d); [|discriminate]. intros H. inversion H. lia. }
+  destruct (be_decode t =? 3).
+  { destruct (take 18 (off + 1) d); [|discriminate]. intros H. inversion H. lia. }
+  destruct (negb false && (be_decode t =? 2)); [|discriminate].
+  destruct (take 2 (off + 1) d) as [l|]; [|discriminate].
+  destruct (negb (utf8_valid (firstn (Z.to_nat (be_decode l)) (skipn (off + 3) d)))); [discriminate|].
+  destruct (take 2 (off + 3 + Z.to_nat (be_decode l)) d); [|discriminate].
+  intros H. inversion H. lia.
 Qed.
 
 (* load_snapshot always terminates by itself: the fuel (one unit per byte) never runs out *)
-Lemma load_loop_total fuel : forall d all c, (length d <= fuel)%nat -> snd (load_loop fuel d all c) = false.
+Lemma load_loop_total fuel : forall d off all c,
+  (length d - off <= fuel)%nat -> snd (load_loop fuel d off all c) = false.
 Proof.
-  induction fuel as [|f IH]; intros d all c Hf; destruct d as [|b d]; cbn [load_loop snd]; try reflexivity.
-  - simpl in Hf. lia.
-  - destruct (unpack_addr (b :: d)) as [[a used]|] eqn:U; [|reflexivity].
-    apply IH. rewrite skipn_length.
-    assert (1 <= used)%nat.
-    { unfold unpack_addr in U. destruct b as [|pb|pb]; try discriminate.
-      destruct pb as [pb|pb|]; try discriminate.
-      - destruct pb; try discriminate. destruct (18 <=? length d)%nat; inversion U. lia.
-      - destruct (6 <=? length d)%nat; inversion U. lia. }
-    cbn [length] in Hf |- *. lia.
+  induction fuel as [|f IH]; intros d off all c Hf; cbn [load_loop];
+    destruct (off <? length d)%nat eqn:L; cbn [snd]; try reflexivity.
+  - apply Nat.ltb_lt in L. lia.
+  - destruct (unpack_address d off) as [[a o]|e] eqn:U; [|reflexivity].
+    apply IH. apply unpack_address_advances in U. apply Nat.ltb_lt in L. lia.
 Qed.
 
 Theorem load_snapshot_total_l n d :
-  snd (load_loop (length d) d (all_addrs n) (intro_cache n)) = false.
+  snd (load_loop (length d) d 0 (all_addrs n) (intro_cache n)) = false.
 Proof. apply load_loop_total. lia. Qed.
 
-(* ------------------------------------------------------------------ well-formed addresses in the heap *)
+(* ------------------------------------------------------------------ packable addresses in the heap *)
 Definition heap_ok (h : list obj) : Prop := Forall (fun o => am_ok (snd o)) h.
 
 Lemma heap_ok_get h i : heap_ok h -> am_ok (haddrs h i).
 Proof.
   intros H. unfold haddrs, hget. destruct (nth_in_or_default i h null_obj) as [Hin|E].
   - exact (proj1 (Forall_forall _ _) H _ Hin).
-  - rewrite E. cbn. split; exact I.
+  - rewrite E. cbn. repeat split.
 Qed.
 
 Lemma am_ok_update m m' : am_ok m -> am_ok m' -> am_ok (am_update m m').
 Proof.
-  unfold am_ok, am_update. intros [H1 H2] [H3 H4]. cbn [am4 am6].
-  split; [destruct (am4 m')|destruct (am6 m')]; assumption.
+  unfold am_ok, am_update, opt_or. intros (H1 & H2 & H3) (H4 & H5 & H6). cbn [am4 am6 amd].
+  repeat split; [destruct (am4 m')|destruct (am6 m')|destruct (amd m')]; assumption.
 Qed.
 
 Lemma heap_ok_hset h j o : heap_ok h -> am_ok (snd o) -> heap_ok (hset h j o).
@@ -206,7 +132,7 @@ Proof.
   - unfold get_verified_by_address. fold (ip_pick n a hint). destruct (ip_pick n a hint); assumption.
   - destruct s; assumption.
   - unfold get_introductions_from. destruct (d_get Z.eqb k (intro_cache n)); assumption.
-  - unfold load_snapshot. destruct (load_loop _ _ _ _) as [[? ?] ?]. assumption.
+  - unfold load_snapshot. destruct (load_loop _ _ _ _ _) as [[? ?] ?]. assumption.
 Qed.
 
 Lemma heap_ok_run ops : forall n, Forall op_ok ops -> heap_ok (heap n) -> heap_ok (heap (run n ops)).
@@ -215,41 +141,19 @@ Proof.
   apply IH; [assumption|]. apply heap_ok_step; assumption.
 Qed.
 
-Lemma addr_ok_preferred m : am_ok m -> addr_ok (am_preferred m).
+Lemma packable_preferred m : am_ok m -> packable (am_preferred m).
 Proof.
-  unfold am_ok, am_preferred. intros [H1 H2]. destruct (am6 m) as [[i p]|]; [assumption|].
-  destruct (am4 m) as [[i p]|]; [assumption|]. cbn. lia.
+  unfold am_ok, am_preferred, opt_packable. intros (H1 & H2 & H3).
+  destruct (am6 m); [assumption|]. destruct (am4 m); [assumption|]. destruct (amd m); [assumption|].
+  reflexivity.
 Qed.
 
-(* ------------------------------------------------------------------ the round trip *)
-Theorem snapshot_roundtrip_l ipc intc svcc bla blm ops ipc' intc' svcc' bla' blm' :
-  Forall op_ok ops ->
-  let n := run (init_net ipc intc svcc bla blm) ops in
-  snapshot n = concat (map pack_addr (snapshot_addrs n)) /\
-  forall x, In x (reload ipc' intc' svcc' bla' blm' (snapshot_addrs n)) <-> In x (spec_snapshot_addrs (abs n)).
+(* every address a snapshot of a reachable graph holds can be packed *)
+Lemma snapshot_addrs_packable ipc intc svcc bla blm ops :
+  Forall op_ok ops -> Forall packable (snapshot_addrs (run (init_net ipc intc svcc bla blm) ops)).
 Proof.
-  intros Ho n. split; [reflexivity|]. intros x.
-  rewrite <- snapshot_addrs_agree. apply reload_exact.
+  intros Ho. set (n := run (init_net ipc intc svcc bla blm) ops).
   assert (HH : heap_ok (heap n)) by (apply heap_ok_run; [assumption|constructor]).
   unfold snapshot_addrs. apply Forall_forall. intros a Ha. apply filter_In in Ha as [Ha _].
-  apply in_map_iff in Ha as (i & E & _). subst a. apply addr_ok_preferred. apply heap_ok_get. assumption.
-Qed.
-
-(* the records may come in any order (the implementation iterates a set) and with repetitions *)
-Theorem snapshot_roundtrip_any_order_l ipc intc svcc bla blm ops ipc' intc' svcc' bla' blm' l :
-  Forall op_ok ops ->
-  let n := run (init_net ipc intc svcc bla blm) ops in
-  (forall x, In x l <-> In x (snapshot_addrs n)) ->
-  forall x, In x (reload ipc' intc' svcc' bla' blm' l) <-> In x (spec_snapshot_addrs (abs n)).
-Proof.
-  intros Ho n El x.
-  destruct (snapshot_roundtrip_l ipc intc svcc bla blm ops ipc' intc' svcc' bla' blm' Ho) as [_ R].
-  fold n in R. rewrite <- R.
-  assert (Hok : Forall addr_ok (snapshot_addrs n)).
-  { assert (HH : heap_ok (heap n)) by (apply heap_ok_run; [assumption|constructor]).
-    unfold snapshot_addrs. apply Forall_forall. intros a Ha. apply filter_In in Ha as [Ha _].
-    apply in_map_iff in Ha as (i & E & _). subst a. apply addr_ok_preferred. apply heap_ok_get. assumption. }
-  assert (Hokl : Forall addr_ok l).
-  { apply Forall_forall. intros a Ha. apply El in Ha. exact (proj1 (Forall_forall _ _) Hok a Ha). }
-  rewrite !reload_exact by assumption. apply El.
+  apply in_map_iff in Ha as (i & E & _). subst a. apply packable_preferred. apply heap_ok_get. assumption.
 Qed.
